@@ -3,6 +3,9 @@ import math, sys
 from fractions import Fraction as F
 from core import Stream, fl, coq_list
 
+import genmodels
+generated_model = genmodels.geometry_generated_model      # the projection on a candidate edge goes through geometry.proj_segment: its translation from the source is re-checked here too
+
 PROP = 'C10'
 THEOREM_FILE = 'Props/C10.v'
 NOTES = ['soundness only (the property): completeness of the candidate search is the business of C08; the candidate list returned by the spatial index is an arbitrary list in the theorems',
